@@ -12,7 +12,7 @@ pub struct C06P;
 pub static C06: C06P = C06P;
 
 fn n_for(t: Tier) -> usize {
-    t.pick(6, 8)
+    t.pick(6, 12)
 }
 
 /// Iterator sources: 0 = Vec, 1 = custom exact-size iterator, 2 = array (len <= 8), 3 = Vec::drain of a longer Vec
